@@ -646,6 +646,7 @@ func (rt *Runtime) runStmt(ctx context.Context, key string, idx int, sp *StmtPro
 			for i, p := range params {
 				c.retainBytes(fmt.Sprintf("param%d", i), p.Value())
 			}
+			c.retainParams(params)
 			cp := wire.ClientParameters(ctx)
 			for k, v := range cp {
 				c.retain("cparam:"+string(k), v)
